@@ -257,3 +257,124 @@ impl Item for usize {
         (0..n).map(|i| PREFIX_BASE as usize + i).collect()
     }
 }
+
+/// Item without drop glue and with a hand-written, observable `Clone` (the clone generation is part of the
+/// id): used for `cloned()`, where a bitwise copy instead of `Clone::clone` must be visible.
+#[derive(Debug, PartialEq, Eq, PartialOrd, Ord, Hash)]
+pub struct Cp {
+    pub id: u64,
+    pub slot: u8,
+    pub gen: u32,
+    pub val: u64,
+}
+
+pub const GEN_SHIFT: u32 = 40;
+
+impl Cp {
+    pub fn new(id: u64, slot: u8) -> Cp {
+        Cp { id, slot, gen: 0, val: mixv(id) }
+    }
+}
+
+impl Clone for Cp {
+    fn clone(&self) -> Cp {
+        let gen = self.gen + 1;
+        Cp { id: self.id, slot: self.slot, gen, val: mixv(self.id + ((gen as u64) << GEN_SHIFT)) }
+    }
+}
+
+impl Item for Cp {
+    fn id(&self) -> u64 {
+        self.id + ((self.gen as u64) << GEN_SHIFT)
+    }
+    fn slot(&self) -> u8 {
+        self.slot
+    }
+    fn val(&self) -> u64 {
+        self.val
+    }
+    fn red(a: Cp, b: Cp, kind: u8) -> Cp {
+        Cp { id: ID_REDUCED, slot: 0, gen: 0, val: red_vals(a.val, b.val, kind) }
+    }
+    fn prefix(n: usize) -> Vec<Cp> {
+        (0..n).map(|i| Cp::new(PREFIX_BASE + i as u64, 0)).collect()
+    }
+}
+
+impl Item for &Cp {
+    fn id(&self) -> u64 {
+        self.id + ((self.gen as u64) << GEN_SHIFT)
+    }
+    fn slot(&self) -> u8 {
+        self.slot
+    }
+    fn val(&self) -> u64 {
+        self.val
+    }
+    fn red(a: Self, b: Self, kind: u8) -> Self {
+        match kind {
+            RED_MIN | RED_XOR => {
+                if b.val < a.val {
+                    b
+                } else {
+                    a
+                }
+            }
+            RED_SUBCAT => b,
+            _ => {
+                if b.val > a.val {
+                    b
+                } else {
+                    a
+                }
+            }
+        }
+    }
+    fn prefix(n: usize) -> Vec<Self> {
+        static POOL: std::sync::OnceLock<Vec<Cp>> = std::sync::OnceLock::new();
+        POOL.get_or_init(|| (0..16).map(|i| Cp::new(PREFIX_BASE + i, 0)).collect()).iter().take(n).collect()
+    }
+}
+
+/// map collections yield (key, value) pairs
+impl Item for (u8, Tok) {
+    fn id(&self) -> u64 {
+        self.1.id
+    }
+    fn slot(&self) -> u8 {
+        self.1.slot
+    }
+    fn val(&self) -> u64 {
+        self.1.val
+    }
+    fn red(a: Self, b: Self, kind: u8) -> Self {
+        (a.0.min(b.0), Tok::red(a.1, b.1, kind))
+    }
+    fn prefix(n: usize) -> Vec<Self> {
+        Tok::prefix(n).into_iter().map(|t| (0u8, t)).collect()
+    }
+}
+
+impl<'a> Item for (&'a u8, &'a Tok) {
+    fn id(&self) -> u64 {
+        self.1.id
+    }
+    fn slot(&self) -> u8 {
+        self.1.slot
+    }
+    fn val(&self) -> u64 {
+        self.1.val
+    }
+    fn red(a: Self, b: Self, kind: u8) -> Self {
+        let t = <&Tok as Item>::red(a.1, b.1, kind);
+        if std::ptr::eq(t, a.1) {
+            a
+        } else {
+            b
+        }
+    }
+    fn prefix(n: usize) -> Vec<Self> {
+        static KEYS: [u8; 16] = [0; 16];
+        static_prefix_pool().iter().take(n).enumerate().map(|(i, t)| (&KEYS[i], t)).collect()
+    }
+}
